@@ -72,6 +72,11 @@ def mixed_tree(r, variant):
                                                                                  F("src/%s/two-%s.txt" % (d, d), 70000, 70 + ord(d)))]
         pre = [{"p": "dst", "k": "d"}]
         args = ["-w", "2", "--block-size", "64KB", "--glob", "src/*/*.txt", "dst"]
+    elif variant == 9:
+        spec = [{"p": "src", "k": "d"}, F("src/a", 100, 81, mode=0o640), F("src/m", 200000, 82, mode=0o600, mtime_ns=1_300_000_000_000_000_001),
+                {"p": "src/sp", "k": "f", "size": 3 << 20, "seed": 83, "segs": [[4096, 5000], [2 << 20, 70000]], "sync": True}]
+        pre = []
+        args = ["-w", "2", "--block-size", "64KB", "-r", "src", "dst"]
     elif variant >= 3:
         spec = [{"p": "src", "k": "d"}] + tree.gen_tree(r, depth=3, fanout=3, kinds=("f", "f", "d", "l"), prefix="src",
                                                         nonutf8=False, max_entries=12, xattrs=True, modes=True, mtimes=True,
@@ -86,7 +91,7 @@ def mixed_tree(r, variant):
 
 def gen_cases(tier, seed):
     r = random.Random(seed * 15485863 + 4)
-    variants = [0, 1, 2, 3, 5, 6, 7, 8] if tier == "quick" else [0, 1, 2] + list(range(3, 14))
+    variants = [0, 1, 2, 3, 5, 6, 7, 8, 9] if tier == "quick" else [0, 1, 2] + list(range(3, 14))
     for v in variants:
         spec, pre, args = mixed_tree(r, v)
         for driver in ("parfile", "parblock"):
@@ -99,10 +104,11 @@ def expand_case(case):
         root = sb.root
         tree.materialize(root, case["spec"])
         tree.materialize(root, case["pre"])
-        base = core.run_xcp(sb, case["args"], {"log_mode": "full"})
+        always = [{"id": "nocfr", "sys": "copy_file_range", "under": root + "/", "action": "fault", "errno": 38}] if case["variant"] == 9 else []
+        base = core.run_xcp(sb, case["args"], {"log_mode": "full", "rules": always})
         if not base.exit0:
             return {"inconc": ["baseline-failed"], "trace": "baseline failed: %s %s" % (case["args"], base.stderr[-300:])}
-        allsites = sites.enumerate_sites(base.events, root)
+        allsites = [s_ for s_ in sites.enumerate_sites(base.events, root) if not (case["variant"] == 9 and s_["sys"] == "copy_file_range")]
         out = []
         r = random.Random(case["sseed"])
         for s in allsites:
@@ -187,7 +193,7 @@ def run_case(case):
             s = dict(f["site"])
             s["path"] = s["path"].replace("@ROOT@", root)
             rules.append(sites.site_rule(s, "f%d" % i, action="fault", errno=f["errno"]))
-        plan = {"log_mode": "none", "rules": rules}
+        plan = {"log_mode": "none", "rules": rules + ([{"id": "nocfr", "sys": "copy_file_range", "under": root + "/", "action": "fault", "errno": 38}] if case.get("variant") == 9 else [])}
         if case.get("sched") == "pct":
             plan.update({"sched": "pct", "sched_seed": case["sseed"], "pct_horizon": 300})
         run = core.run_xcp(sb, case["args"], plan)
